@@ -436,6 +436,8 @@ fn assert_all_loads_against(pool: &[u8; 32]) {
 /// `$stage2 == true`: Clock succeeds, loader model, cut at pino_calculate_modify_liquidity.
 /// v1 handlers: 11 accounts, 40 data bytes. `$stage2 == false`: prefix harness (the Clock stub cuts);
 /// `$stage2 == true`: Clock succeeds, loader model, cut at pino_calculate_modify_liquidity.
+/// v1 handlers: 11 accounts, 40 data bytes. `$stage2 == false`: prefix harness (the Clock stub cuts);
+/// `$stage2 == true`: Clock succeeds, loader model, cut at pino_calculate_modify_liquidity.
 macro_rules! v1_body {
     ($handler:path, $frozen_blocks:expr, $stage2:expr) => {{
         let mut whirlpool = raw::<A_WP>();
@@ -783,7 +785,7 @@ macro_rules! reposition_body {
 }
 
 /// reposition_liquidity_v2 handler prefix, 19 fully symbolic accounts + 66 data bytes: consequences of c04p_decrease_liquidity_v2_prefix plus funder signed and writable, system program id, all four tick-array accounts writable
-// @verif prop=C04,C15 tier=quick timeout=300
+// @verif prop=C04,C15 tier=thorough timeout=900
 #[kani::proof]
 #[kani::unwind(40)]
 #[kani::stub(alloc::fmt::format, stub_format)]
